@@ -1,10 +1,10 @@
-"""C04 — configuration of the check (deductive tier under construction)."""
+"""C04 — TOAST tiles partition the sphere, nest exactly, and are route-independent."""
 PROPERTY = "C04"
-LEVEL = "exploration"
-CONTRACT_MODULES = ["contracts.specfuns"]
-FUNCTIONS = []
+LEVEL = "other"
+CONTRACT_MODULES = ["contracts.specfuns", "contracts.toastgeom"]
+FUNCTIONS = ["toasty.toast._div4"]
 LEMMAS = []
 SLOW = ()
-TRUSTED_BASE = []
-ASSUMPTIONS = []
-EXPLANATION = "bounded run-time tier only so far"
+TRUSTED_BASE = ["pyvc VC generator; z3/cvc5", "compiled mid(a, b): symmetric great-circle midpoint"]
+ASSUMPTIONS = ["areas, partition of the sphere and numerical equality of shared points are floating-point geometry: bounded tier"]
+EXPLANATION = "one subdivision step proved structurally: child order/positions, shared edge midpoints and centre, diagonal by orientation"
